@@ -2,8 +2,7 @@ import NLV.Props.C06
 #print axioms NLV.C06.trace_numbers_injective
 #print axioms NLV.C06.ids_consistent
 #print axioms NLV.C06.task_numbers_fresh
-#print axioms NLV.C06.attribution_partial
-#print axioms NLV.C06.attribution_of_traced
-#print axioms NLV.C06.attribution_of_live
+#print axioms NLV.C06.attribution
+#print axioms NLV.C06.untraced_emits_nothing
 #print axioms NLV.C06.other_traces_untouched
 #print axioms NLV.C06.open_prompt_does_not_block_others
